@@ -324,6 +324,16 @@ def operator_mapping(ctx, fn: FuncInfo):
     return table, default_keeps
 
 
+def _single_fact(ctx, m: FuncInfo, n: ast.AST) -> bool:
+    """`len(<x>.comparisons) == 1` holds where n is evaluated"""
+    must = ctx.flow(m).must_at(n)
+    return any(
+        isinstance(e, ast.Compare) and "comparisons" in unparse(e) and isinstance(e.left, ast.Call) and call_name(e.left) == "len"
+        and ((pol and isinstance(e.ops[0], ast.Eq) and unparse(e.comparators[0]) == "1") or ((not pol) and isinstance(e.ops[0], (ast.NotEq, ast.Gt)) and unparse(e.comparators[0]) == "1"))
+        for pol, e in fact_exprs(must)
+    )
+
+
 def rule_invert_table(ctx, rep):
     rep.rule(
         "R-INVERT-TABLE",
@@ -351,10 +361,22 @@ def rule_invert_table(ctx, rep):
     # single comparison only
     rn = c.methods.get("report_new_comparison")
     calls = []
-    for m in c.methods.values():
-        for n in walk_no_nested(m.node):
-            if isinstance(n, ast.Call) and last_attr(n.func) == inv.name and m is not inv:
-                calls.append((m, n))
+    # call sites of the table method, followed up through non-hook methods of the class until the single-comparison fact is met or a hook is reached
+    targets, done = [inv.name], set()
+    while targets:
+        tname = targets.pop()
+        if tname in done:
+            continue
+        done.add(tname)
+        for m in c.methods.values():
+            if m.name == tname:
+                continue
+            for n in walk_no_nested(m.node):
+                if isinstance(n, ast.Call) and last_attr(n.func) == tname:
+                    if _single_fact(ctx, m, n) or m.name.startswith("leave_"):
+                        calls.append((m, n))
+                    else:
+                        targets.append(m.name)
     if not calls and inv.name.startswith("leave_"):
         # the table sits in the hook itself: the arity fact must hold where the table is consulted
         first = next((n for n in walk_no_nested(inv.node) if isinstance(n, ast.Match) or (isinstance(n, ast.If) and isinstance(n.test, ast.Call) and call_name(n.test) == "isinstance")), None)
@@ -362,13 +384,7 @@ def rule_invert_table(ctx, rep):
             calls.append((inv, first))
     ok = bool(calls)
     for m, n in calls:
-        must = ctx.flow(m).must_at(n)
-        single = any(
-            isinstance(e, ast.Compare) and "comparisons" in unparse(e) and isinstance(e.left, ast.Call) and call_name(e.left) == "len"
-            and ((pol and isinstance(e.ops[0], ast.Eq) and unparse(e.comparators[0]) == "1") or ((not pol) and isinstance(e.ops[0], (ast.NotEq, ast.Gt)) and unparse(e.comparators[0]) == "1"))
-            for pol, e in fact_exprs(must)
-        )
-        ok = ok and single
+        ok = ok and _single_fact(ctx, m, n)
     rep.check("R-INVERT-TABLE", c.qname, calls[0][0].loc(calls[0][1]) if calls else c.loc(), ok, "single-comparison-only",
               "chained comparisons are inverted element-wise: `not a == b == c` becomes `a != b != c` (not equivalent)")
 
@@ -457,20 +473,38 @@ def rule_extent_all_names(ctx, rep):
         raise AnalysisError("no accumulation over find_accesses found in core_codemods.file_resource_leak (anchor vanished)")
 
 
+def _all_matches(ctx, fn: FuncInfo, e: ast.expr, depth: int = 2) -> bool:
+    """`e` is the list of all matches of a pattern: list(P.finditer(x)) / tuple(...) / [*P.finditer(x)], or a repository function returning that."""
+    if isinstance(e, ast.Name):
+        e = ctx.resolver(fn).expand(e)
+    if isinstance(e, ast.Call) and call_name(e) in ("list", "tuple") and e.args:
+        inner = e.args[0]
+        return isinstance(inner, ast.Call) and last_attr(inner.func) == "finditer"
+    if isinstance(e, (ast.List, ast.Tuple)) and len(e.elts) == 1 and isinstance(e.elts[0], ast.Starred):
+        inner = e.elts[0].value
+        return isinstance(inner, ast.Call) and last_attr(inner.func) == "finditer"
+    if isinstance(e, ast.IfExp):
+        return _all_matches(ctx, fn, e.body, depth) and _all_matches(ctx, fn, e.orelse, depth)
+    if depth and isinstance(e, ast.Call):
+        try:
+            ts = [t for t in ctx.resolver(fn).resolve_call(e) if isinstance(t, FuncInfo)]
+        except Exception:
+            ts = []
+        if len(ts) == 1:
+            rets = [r.value for r in walk_no_nested(ts[0].node) if isinstance(r, ast.Return) and r.value is not None]
+            return bool(rets) and all(_all_matches(ctx, ts[0], v, depth - 1) for v in rets)
+    return False
+
+
 def _match_selection(ctx, fn: FuncInfo, e: ast.expr, env: dict, depth: int = 3):
     """Which match of a pattern does `e` denote: 'first' / 'last' / None (not a match selection) / '?' (a selection not understood)."""
     if isinstance(e, ast.Name):
-        return env.get(e.id)
+        return env.get(e.id, (None, None))[0]
     if isinstance(e, ast.IfExp):
         a, b = _match_selection(ctx, fn, e.body, env, depth), _match_selection(ctx, fn, e.orelse, env, depth)
         return a if a == b else ("?" if (a or b) else None)
-    if isinstance(e, ast.Subscript) and isinstance(e.value, ast.Call):
-        inner = e.value
-        if call_name(inner) in ("list", "tuple") and inner.args:
-            inner = inner.args[0]
-        if isinstance(inner, ast.Call) and last_attr(inner.func) in ("finditer",):
-            idx = unparse(e.slice)
-            return {"0": "first", "-1": "last"}.get(idx, "?")
+    if isinstance(e, ast.Subscript) and _all_matches(ctx, fn, e.value):
+        return {"0": "first", "-1": "last"}.get(unparse(e.slice), "?")
     if isinstance(e, ast.Call):
         la = last_attr(e.func)
         if la in ("search", "match") and isinstance(e.func, ast.Attribute):
@@ -497,17 +531,14 @@ def rule_cut_side(ctx, rep):
     rep.rule(
         "R-CUT-SIDE",
         "sql-parameterization cuts the literal before an injected expression at the quote that opens the parameter and the literal "
-        "after it at the quote that closes it: where the text *after* the selected quote match (`text[m.end():]`) is split off, the "
-        "match is the last one of the piece; where the text *before* it (`text[:m.start()]`) is split off and the rest kept, it is the "
-        "first one.  Both cuts exist and select opposite ends (the two sides are each other's mirror image)",
+        "after it at the quote that closes it: the cut whose kept text (`text[:m.start()]`) is joined with the parameter token uses the *last* "
+        "quote match of the piece; the other cut (the mirror image: `text[m.end():]` kept, `text[:m.start()]` split off) uses the *first*",
         min_instances=2,
     )
     cls = ctx.prog.cls(SQL_T)
-    found = []
+    cuts: dict[tuple, dict] = {}
     for fn in cls.methods.values():
-        uses_token = any(isinstance(x, ast.Name) and x.id == "parameter_token" for x in walk_no_nested(fn.node))
-        if not uses_token:
-            continue
+        version = [0]
 
         def scan(stmts, env):
             for st in stmts:
@@ -517,7 +548,11 @@ def rule_cut_side(ctx, rep):
                     scan(st.orelse, e2)
                     for k in set(e1) | set(e2):
                         a, b = e1.get(k), e2.get(k)
-                        env[k] = a if a == b else "?"
+                        if a is not None and b is not None and a[0] == b[0]:
+                            env[k] = a
+                        else:
+                            version[0] += 1
+                            env[k] = ("?", version[0])
                     continue
                 if isinstance(st, (ast.For, ast.While, ast.With, ast.Try)):
                     for blk in ("body", "orelse", "finalbody"):
@@ -525,48 +560,52 @@ def rule_cut_side(ctx, rep):
                     for h in getattr(st, "handlers", []):
                         scan(h.body, env)
                     continue
-                # uses in this statement (with the environment before its own stores)
                 for x in ast.walk(st):
                     if isinstance(x, ast.Subscript) and isinstance(x.slice, ast.Slice):
                         lo, hi = x.slice.lower, x.slice.upper
+                        which = sname = None
                         if lo is None and isinstance(hi, ast.Call) and last_attr(hi.func) == "start" and isinstance(hi.func.value, ast.Name) and hi.func.value.id in env:
-                            found.append((fn, x, "before", env[hi.func.value.id], st))
+                            which, sname = "before", hi.func.value.id
                         if hi is None and isinstance(lo, ast.Call) and last_attr(lo.func) == "end" and isinstance(lo.func.value, ast.Name) and lo.func.value.id in env:
-                            found.append((fn, x, "after", env[lo.func.value.id], st))
+                            which, sname = "after", lo.func.value.id
+                        if which:
+                            kind, ver = env[sname]
+                            g = cuts.setdefault((fn.qname, sname, ver), {"fn": fn, "kind": kind, "uses": [], "token": False, "node": x})
+                            g["uses"].append(which)
+                            if which == "before" and any(isinstance(y, ast.Name) and y.id == "parameter_token" for y in ast.walk(st)):
+                                g["token"] = True
+                                g["node"] = x
                 if isinstance(st, (ast.Assign, ast.AnnAssign)) and st.value is not None:
                     for t in (st.targets if isinstance(st, ast.Assign) else [st.target]):
                         if isinstance(t, ast.Name):
                             k = _match_selection(ctx, fn, st.value, env)
                             if k is not None:
-                                env[t.id] = k
+                                version[0] += 1
+                                env[t.id] = (k, version[0])
                             else:
                                 env.pop(t.id, None)
 
         scan(fn.node.body, {})
-    opening = [(fn, x, kind) for fn, x, which, kind, st in found if which == "before" and any(isinstance(y, ast.Name) and y.id == "parameter_token" for y in ast.walk(st))]
+    opening = [g for g in cuts.values() if g["token"]]
+    closing = [g for g in cuts.values() if not g["token"] and "after" in g["uses"]]
     if not opening:
         raise AnalysisError("sql-parameterization: the cut `text[:m.start()] + parameter_token` was not found (anchor vanished)")
-    for fn, x, kind in opening:
-        rep.check("R-CUT-SIDE", fn.qname, fn.loc(x), kind == "last", "opening-quote",
-                  f"`{unparse(x)[:50]} + parameter_token` keeps the text before the {kind if kind != '?' else 'ambiguously selected'} quote of the piece: with an "
-                  "earlier quoted constant in the same literal (\"... role = 'admin' AND name = '\" + name) the `?` replaces the wrong literal "
-                  "and SQL text moves into the bound value")
+    if not closing:
+        raise AnalysisError("sql-parameterization: the closing cut (`text[m.end():]` kept, no parameter token) was not found (anchor vanished)")
+    for g in opening:
+        fn, kind, x = g["fn"], g["kind"], g["node"]
         if kind == "?":
             raise AnalysisError(f"{fn.qname}: which match opens the parameter is not understood")
-    n_close = 0
-    for fn, x, which, kind, st in found:
-        # the mirror cut: text after the match is kept (no token on this side), text before it is split off
-        if which == "after" and kind != "last":
-            n_close += 1
-            rep.check("R-CUT-SIDE", fn.qname, fn.loc(x), kind == "first", "closing-quote",
-                      f"`{unparse(x)[:50]}` keeps the text after the {kind} quote of the piece that closes the parameter")
-    if n_close == 0:
-        first_before = [x for fn, x, which, kind, st in found if which == "before" and kind == "first"]
-        if not first_before:
-            fn0 = opening[0][0]
-            rep.check("R-CUT-SIDE", fn0.qname, fn0.loc(), False, "closing-quote",
-                      "no cut at the *first* quote of the piece that closes the parameter: both sides select the same end, so one of them "
-                      "splits at the wrong quote whenever its literal holds more than one")
+        rep.check("R-CUT-SIDE", fn.qname, fn.loc(x), kind == "last", "opening-quote",
+                  f"`{unparse(x)[:50]} + parameter_token` keeps the text before the {kind} quote of the piece: with an "
+                  "earlier quoted constant in the same literal (\"... role = 'admin' AND name = '\" + name) the `?` replaces the wrong literal "
+                  "and SQL text moves into the bound value")
+    for g in closing:
+        fn, kind, x = g["fn"], g["kind"], g["node"]
+        if kind == "?":
+            raise AnalysisError(f"{fn.qname}: which match closes the parameter is not understood")
+        rep.check("R-CUT-SIDE", fn.qname, fn.loc(x), kind == "first", "closing-quote",
+                  f"`{unparse(x)[:50]}`: the piece that closes the parameter is cut at its {kind} quote: what lies between the first and that quote moves into the bound value")
 
 
 def rule_args(ctx, rep):
